@@ -10,14 +10,13 @@ Definition c15_rule_of_str (s : str) : option rule := rule_of_str s.
 Definition c15_parse (s : str) : outcome tstruct := parse_type_structure_b s.
 Definition c15_names (s : str) : outcome (list str) := names_b s.
 Definition c15_prefix (s : str) : outcome str := prefix_b s.
-Definition c15_apply (r : rule) (s : str) : outcome str := apply_to_field_b r s.
+Definition c15_apply (r : rule) (s : str) : outcome str := naming_b r s.
 Definition c15_event_fn (s : str) : outcome str := event_fn_b s.
-Definition c15_kf_msg (tokens : str) : bool := kf_C15_msg tokens.
-Definition c15_kf_rename (tokens : str) : bool := kf_C15_rename tokens.
-Definition c15_kf_camel (name : str) : bool := kf_C15_camel name.
+Definition c15_variant (r : rule) (s : str) : outcome str := apply_to_variant_b r s.
+Definition c15_kf_variant (name : str) : bool := kf_C15_variant name.
 (* the property's predicate on an observed outcome: the function returned *)
 Definition c15_no_panic {A} (o : outcome A) : bool := match o with Ok _ => true | _ => false end.
 
 Extraction Language OCaml.
 Extraction "tt_c15.ml" c15_utf8 c15_validator c15_serde c15_rule_of_str c15_parse c15_names c15_prefix
-  c15_apply c15_event_fn c15_kf_msg c15_kf_rename c15_kf_camel c15_no_panic.
+  c15_apply c15_event_fn c15_variant c15_kf_variant c15_no_panic.
